@@ -462,6 +462,24 @@ theorem write_read_ech_empty_key_witness :
       .ok (norm (greaseECH 1 1 7 [] (List.replicate 16 0))) := by
   refine ⟨by simp [WF], rfl, rfl, by decide⟩
 
+/-- **ECH-GREASE: "regenerated at the same sizes"** — for every non-empty encapsulated key, of *any*
+length (not only the 32 bytes of X25519 that `init()` would draw by itself: 65/97/133 for the NIST KEMs,
+1, 33, …), decoding the body `Read` produced yields an extension whose key and payload have the decoded
+lengths, so the re-encoding has the same total size and the same deterministic prefix. -/
+theorem ech_sizes_preserved (k a c : Nat) (enc pl : Bytes) (hwf : WF (greaseECH k a c enc pl)) (hne : enc ≠ []) :
+    ∃ enc' pl', write false 65037 (body (greaseECH k a c enc pl)) = .ok (greaseECH k a c enc' pl') ∧
+      enc'.length = enc.length ∧ pl'.length = pl.length ∧
+      len (greaseECH k a c enc' pl') = len (greaseECH k a c enc pl) ∧
+      (body (greaseECH k a c enc' pl')).take 8 = (body (greaseECH k a c enc pl)).take 8 := by
+  refine ⟨List.replicate enc.length 0, List.replicate pl.length 0, ?_, by simp, by simp, by simp [len], ?_⟩
+  · have h := write_read_partial (greaseECH k a c enc pl) hwf rfl rfl
+      (by intro k' a' c' enc' p' he; cases he; exact hne)
+    simpa [realPskOf, typeId, norm] using h
+  · simp [body, List.take_append, u16]
+
+example : WF (greaseECH 1 1 7 (List.replicate 65 9) (List.replicate 144 3)) ∧ (List.replicate 65 (9 : UInt8)) ≠ [] := by
+  refine ⟨by simp [WF], by simp⟩
+
 /-- the normalisation is idempotent: normalised extensions are fixed points of decode ∘ encode. -/
 theorem norm_idem (e : Ext) : norm (norm e) = norm e := by
   cases e <;> simp [norm, unGrease, greasePlaceholder, isGreaseU16]
